@@ -298,16 +298,35 @@ type decodeResult struct {
 	Panic string
 	Alloc uint64
 	Reads int
+	Spin  int // > 0: the decoder was stopped after that many reads
 }
 
 type countingReader struct {
 	r     *bytes.Reader
 	reads int
+	// nested, if set, runs inside every Read: another connection's decode interleaved with
+	// this one at read granularity
+	nested func()
 }
+
+// spinLimit: no decode of the inputs used here needs anywhere near that many reads; a decoder
+// that keeps reading an exhausted stream is stopped by a panic the caller turns into a finding
+// (a count, not a clock)
+const spinLimit = 2_000_000
+
+type spinning struct{ reads int }
 
 func (c *countingReader) Read(p []byte) (int, error) {
 	c.reads++
-	return c.r.Read(p)
+	if c.reads > spinLimit {
+		panic(spinning{c.reads})
+	}
+	n, err := c.r.Read(p)
+	if c.nested != nil {
+		// (after the bytes have landed in the caller's buffer and before the caller looks at them)
+		c.nested()
+	}
+	return n, err
 }
 
 var allocSample = []metrics.Sample{{Name: "/gc/heap/allocs:bytes"}}
@@ -322,7 +341,11 @@ func decode(b []byte, pver uint32) (res decodeResult) {
 	a0 := allocBytes()
 	defer func() {
 		if p := recover(); p != nil {
-			res.Panic = fmt.Sprintf("%v\n%s", p, debug.Stack())
+			if sp, ok := p.(spinning); ok {
+				res.Spin = sp.reads
+			} else {
+				res.Panic = fmt.Sprintf("%v\n%s", p, debug.Stack())
+			}
 		}
 		res.Alloc = allocBytes() - a0
 		res.Reads = cr.reads
@@ -352,7 +375,7 @@ func runC14(env core.Env, rep *core.Report) {
 	wire.SetLimits(c14Limit)
 	maxPayload := uint64(2 * 1024 * 1024)
 	rep.Rule = "one evaluation = one encode/decode round trip of one message shape under one protocol version, or one decode of one mutated frame; non-trivial = a boundary field value / limit-size list, or any mutated frame; distinct by (kind, shape, version) or (seed frame, mutation)"
-	rep.Bound = "[round trip: 16 kinds x shapes (counts 0,1,2,limit; limit+1 must be refused; each scalar over its boundary alphabet) x protocol versions {70013,70012,70011,70002,70001,60002,60001,60000,31402,31401,209} (every version at which an encoding changes and its predecessor; fields a version does not carry must come back as zero, a message may be refused only below the version that introduced it)] [hostile: for every seed frame with <=2 elements: every single-bit flip of the frame, every truncation, 8 length-field values, every payload bit flip / truncation / varint splice at every position with recomputed checksum, one splice per ordered pair of kinds at every cut, wrong magic, bad checksum, unknown and invalid-UTF-8 command] [thorough adds: every value of every payload byte, every pair of payload bit flips (payloads <= 96 bytes), splices at every pair of cuts]"
+	rep.Bound = "[round trip: 16 kinds x shapes (counts 0,1,2,limit; limit+1 must be refused; each scalar over its boundary alphabet) x protocol versions {70013,70012,70011,70002,70001,60002,60001,60000,31402,31401,209} (every version at which an encoding changes and its predecessor; fields a version does not carry must come back as zero, a message may be refused only below the version that introduced it)] [hostile: for every seed frame with <=2 elements: every single-bit flip of the frame, every truncation, 8 length-field values, every payload bit flip / truncation / varint splice at every position with recomputed checksum, one splice per ordered pair of kinds at every cut, wrong magic (also with 7 length-field values up to 2^32-1), bad checksum, unknown and invalid-UTF-8 command; every ordered pair of 40 seed frames decoded interleaved at read granularity] [thorough adds: every value of every payload byte, every pair of payload bit flips (payloads <= 96 bytes), splices at every pair of cuts]"
 	progress, _ := os.OpenFile(env.Out+".progress", os.O_CREATE|os.O_RDWR, 0o644)
 	mark := func(s string) {
 		if progress != nil {
@@ -457,6 +480,9 @@ func runC14(env core.Env, rep *core.Report) {
 		rp := map[string]any{"engine": "domwalk", "property": "C14", "class": class, "kind": s.Kind, "shape": s.Desc, "mutation": mutation, "frame_hex": fmt.Sprintf("%x", clipb(b))}
 		d := decode(b, pver)
 		switch {
+		case d.Spin > 0:
+			viol("hostile.spin/"+s.Kind+"/"+class, fmt.Sprintf("%s [%s] %s: the decoder was still reading after %d reads of a %d-byte input", s.Kind, s.Desc, mutation, d.Spin, len(b)), rp, "error or message", d.Spin)
+			return
 		case d.Panic != "":
 			viol("hostile.panic/"+s.Kind+"/"+class, fmt.Sprintf("%s [%s] %s: decoder panicked: %s", s.Kind, s.Desc, mutation, firstLine(d.Panic)), rp, "error or message", d.Panic)
 			return
@@ -571,6 +597,13 @@ func runC14(env core.Env, rep *core.Report) {
 		m := append([]byte{}, f...)
 		binary.LittleEndian.PutUint32(m[0:4], uint32(wire.TestNet3))
 		judge("wrong-magic", s, "testnet magic", m, true)
+		for _, l := range []uint32{0, uint32(maxPayload) + 1, 0x7fffffff, 0x80000000, 0xfffff000, 0xfffff001, 0xffffffff} {
+			m2 := append([]byte{}, m...)
+			binary.LittleEndian.PutUint32(m2[16:20], l)
+			judge("wrong-magic+length", s, fmt.Sprintf("testnet magic, length field %d", l), m2, true)
+			m3 := append([]byte{}, m2[:24]...)
+			judge("wrong-magic+length", s, fmt.Sprintf("testnet magic, length field %d, header only", l), m3, true)
+		}
 		m = append([]byte{}, f...)
 		m[20] ^= 0xff
 		judge("bad-checksum", s, "checksum byte inverted", m, true)
@@ -581,6 +614,74 @@ func runC14(env core.Env, rep *core.Report) {
 		copy(m[4:16], []byte{0xff, 0xfe, 0xfd, 0, 0, 0, 0, 0, 0, 0, 0, 0})
 		judge("invalid-utf8-command", s, "command ff fe fd", m, true)
 		rep.Sample(func() any { return map[string]any{"seed_kind": s.Kind, "seed_shape": s.Desc, "frame_bytes": len(f)} })
+	}
+	// (i) two decodes interleaved at read granularity (two connections served at once), after all
+	// the refused frames above went through the codec: each must still return its own message
+	if env.Mine(7) {
+		var good []sf
+		for _, x := range frames {
+			if x.s.Msg != nil && len(good) < 40 {
+				good = append(good, x)
+			}
+		}
+		// (whatever a refused frame leaves behind in the codec's process-wide state must be there:
+		// every truncation of these frames' payloads goes through this very process first)
+		for _, a := range good {
+			pl := a.frame[24:]
+			for n := 0; n < len(pl); n++ {
+				decode(reframe(a.frame, pl[:n]), pver)
+			}
+		}
+		fresh := func(m wire.Message) wire.Message {
+			return reflect.New(reflect.TypeOf(m).Elem()).Interface().(wire.Message)
+		}
+		payloadDecode := func(m wire.Message, payload []byte, nested func()) (out wire.Message, err error, pan string) {
+			defer func() {
+				if p := recover(); p != nil {
+					pan = fmt.Sprint(p)
+				}
+			}()
+			out = fresh(m)
+			// the message decoder reads field by field straight from the reader (as it does from a
+			// connection's buffer): the other decode runs between any two of those reads
+			if nested == nil {
+				err = out.Bsvdecode(bytes.NewBuffer(append([]byte{}, payload...)), pver, wire.BaseEncoding)
+				return
+			}
+			err = out.Bsvdecode(&countingReader{r: bytes.NewReader(payload), nested: nested}, pver, wire.BaseEncoding)
+			return
+		}
+		for _, a := range good {
+			if a.s.Kind == "version" {
+				continue // (its decoder insists on a *bytes.Buffer: it cannot be the outer one)
+			}
+			for _, b := range good {
+				rep.Evaluations++
+				rep.Executions++
+				rep.DistinctNontrivial++
+				var innerMsg wire.Message
+				var innerErr error
+				var innerPanic string
+				busy := false
+				nested := func() {
+					if busy {
+						return
+					}
+					busy = true
+					innerMsg, innerErr, innerPanic = payloadDecode(b.s.Msg, b.frame[24:], nil)
+					busy = false
+				}
+				ma, err, pa := payloadDecode(a.s.Msg, a.frame[24:], nested)
+				okA := err == nil && pa == "" && reflect.DeepEqual(normalize(ma), normalize(a.s.Msg))
+				okB := innerMsg == nil || (innerErr == nil && innerPanic == "" && reflect.DeepEqual(normalize(innerMsg), normalize(b.s.Msg)))
+				if !okA || !okB {
+					viol("interleaved.decode", fmt.Sprintf("decoding %s [%s] with a decode of %s [%s] running between its reads: one of the two did not return its own message", a.s.Kind, a.s.Desc, b.s.Kind, b.s.Desc),
+						map[string]any{"engine": "domwalk", "property": "C14", "class": "interleaved", "outer": a.s.Kind + " " + a.s.Desc, "inner": b.s.Kind + " " + b.s.Desc}, "both messages as encoded", fmt.Sprintf("outer ok=%v (err %v %s), inner ok=%v (err %v %s)", okA, err, pa, okB, innerErr, innerPanic))
+				} else {
+					rep.Outcome("interleaved:ok")
+				}
+			}
+		}
 	}
 	// (e) splices: header+prefix of kind A's payload + suffix of kind B's payload, at every cut
 	var kinds []string
